@@ -49,10 +49,11 @@ type certSpec struct {
 	xMail      []string
 	pURI, xURI []string
 	pIP, xIP   []*net.IPNet
-	crit       bool // carries an unknown critical extension
-	roots      bool // member of the trusted pool
-	inter      bool // member of the intermediates pool
-	target     bool // verified as a leaf
+	crit       bool   // carries an unknown critical extension
+	skid       []byte // explicit subjectKeyIdentifier (nil: the library derives one for CAs); key ids are hints and never part of the ground truth
+	roots      bool   // member of the trusted pool
+	inter      bool   // member of the intermediates pool
+	target     bool   // verified as a leaf
 }
 
 func (s *certSpec) hasNC() bool {
@@ -66,6 +67,29 @@ type topo struct {
 	chain  []int // the base chain, root first, leaf last
 	nkeys  int
 	notes  []string
+
+	ekuVaried bool // extended key usages differ between certificates: ask with several requested usages
+	ekuRecipe bool // ... because the recipe is about them
+
+	// Pool contents of the query being judged when they are not the roots/inter flags of
+	// the specifications: a query without Intermediates (mInter all false) and the pool
+	// histories of pools.go (contents and per-entry constraints from the pool models).
+	mRoots, mInter []bool
+	cRoots, cInter []*poolCons // per certificate: constraint of its entry in the pool used as Roots / Intermediates (nil: none)
+}
+
+func (t *topo) isRoot(i int) bool {
+	if t.mRoots != nil {
+		return t.mRoots[i]
+	}
+	return t.certs[i].roots
+}
+
+func (t *topo) isInter(i int) bool {
+	if t.mInter != nil {
+		return t.mInter[i]
+	}
+	return t.certs[i].inter
 }
 
 func (t *topo) newKey() int { t.nkeys++; return t.nkeys - 1 }
@@ -206,6 +230,10 @@ func nameConstraint(t *topo, r *mon.Rand, kind int) {
 			pool = pool[:4] // keep clear of the sub-domain-of-a-host reading on which Verify and RFC 5280 differ
 		}
 		names = subset(r, pool, r.Range(1, 2))
+		if r.Bool() {
+			// quoted-string local parts (RFC 5321 4.1.2): the quotes and quoted-pairs are syntax, "user" is the mailbox user
+			names = append(names, pick(r, []string{`"user"@example.com`, `"other user"@example.com`, `"us\er"@example.com`, `"user"@example.org`}))
+		}
 		leaf.emails = names
 		if excl {
 			ca.xMail = cons
@@ -219,6 +247,10 @@ func nameConstraint(t *topo, r *mon.Rand, kind int) {
 			pool = pool[:4]
 		}
 		names = subset(r, pool, r.Range(1, 2))
+		if r.Intn(4) == 0 {
+			// URIs without a fully qualified host name: RFC 5280 4.2.1.10 demands refusal under a CA with URI constraints
+			names = append(names, pick(r, []string{"https://192.0.2.7/x", "https://192.0.2.7:8443/x", "https://[2001:db8::7]/y", "https://[2001:db8::7]:8443/y", "urn:verif:no-authority"}))
+		}
 		leaf.uris = names
 		if excl {
 			ca.xURI = cons
@@ -368,16 +400,15 @@ var mutators = []mutator{
 		t.root().roots, t.root().inter = false, true
 	}},
 	{"ext-key-usage", func(t *topo, r *mon.Rand) {
-		opts := [][]x509.ExtKeyUsage{nil, {x509.ExtKeyUsageServerAuth}, {x509.ExtKeyUsageClientAuth},
-			{x509.ExtKeyUsageServerAuth, x509.ExtKeyUsageClientAuth}, {x509.ExtKeyUsageAny}, {x509.ExtKeyUsageCodeSigning}}
 		for _, i := range t.chain {
 			if r.Bool() {
-				t.certs[i].eku = opts[r.Intn(len(opts))]
+				t.certs[i].eku = ekuOpts[r.Intn(len(ekuOpts))]
 			}
 			if r.Intn(8) == 0 {
 				t.certs[i].eku, t.certs[i].unkEKU = nil, true
 			}
 		}
+		t.ekuVaried, t.ekuRecipe = true, true
 	}},
 	{"critical-extension", func(t *topo, r *mon.Rand) {
 		s := t.certs[t.chain[r.Intn(len(t.chain))]]
@@ -425,6 +456,96 @@ var mutators = []mutator{
 	{"ca-as-target", func(t *topo, r *mon.Rand) {
 		t.certs[t.chain[t.pickCA(r)]].target = true
 	}},
+	// several candidate chains, each with rules of its own (any rule of the model)
+	{"parallel-versions", func(t *topo, r *mon.Rand) { parallelVersions(t, r, false) }},
+	// several candidate chains whose extended key usages differ
+	{"parallel-versions-eku", func(t *topo, r *mon.Rand) { parallelVersions(t, r, true) }},
+}
+
+// ekuOpts: the extended key usage lists certificates are given.
+var ekuOpts = [][]x509.ExtKeyUsage{nil, {x509.ExtKeyUsageServerAuth}, {x509.ExtKeyUsageClientAuth},
+	{x509.ExtKeyUsageServerAuth, x509.ExtKeyUsageClientAuth}, {x509.ExtKeyUsageAny}, {x509.ExtKeyUsageCodeSigning},
+	{x509.ExtKeyUsageEmailProtection}, {x509.ExtKeyUsageEmailProtection, x509.ExtKeyUsageClientAuth}}
+
+// parallelVersions gives one or two CAs of the base chain one or two further
+// certificates for the same name and key (re-issued by the same issuer, cross-signed by
+// a further root, or a second self-signed version of the root), so that the target has
+// 2..9 candidate chains, and gives every version a rule of its own: whatever Verify
+// keeps between candidate chains (usage lists, counters, the chain under construction)
+// then meets a candidate for which the answer differs.
+func parallelVersions(t *topo, r *mon.Rand, ekuOnly bool) {
+	levels := 1
+	if len(t.chain) > 2 && r.Intn(3) == 0 {
+		levels = 2
+	}
+	seen := map[int]bool{}
+	for l := 0; l < levels; l++ {
+		p := t.pickCA(r)
+		if seen[p] {
+			continue
+		}
+		seen[p] = true
+		x := t.certs[t.chain[p]]
+		versions := []*certSpec{x}
+		for v, nv := 0, r.Range(1, 2); v < nv; v++ {
+			var s *certSpec
+			switch k := r.Intn(3); {
+			case k == 0 || (k == 2 && x.issuer < 0):
+				// re-issued: same issuer (for the root: a second self-signed certificate), same pools
+				s = caSpec(r, x.name, x.key, x.issuer)
+				s.roots, s.inter = x.roots, x.inter
+			case k == 1:
+				// cross-signed by a further root
+				nr := caSpec(r, fmt.Sprintf("XRoot%d", len(t.certs)), t.newKey(), -1)
+				nr.roots = r.Intn(4) > 0
+				s = caSpec(r, x.name, x.key, t.add(nr))
+				s.inter = true
+			default:
+				// a version of an intermediate that is itself a trust anchor
+				s = caSpec(r, x.name, x.key, x.issuer)
+				s.roots, s.inter = true, r.Bool()
+			}
+			t.add(s)
+			versions = append(versions, s)
+		}
+		for _, s := range versions {
+			k := r.Intn(9)
+			if ekuOnly {
+				k = r.Intn(4) // 3: no rule of its own
+			}
+			switch k {
+			case 0, 1, 2:
+				s.eku = ekuOpts[r.Intn(len(ekuOpts))]
+				if r.Intn(8) == 0 {
+					s.eku, s.unkEKU = nil, true
+				}
+			case 3:
+			case 4:
+				s.maxPath = r.Intn(2)
+			case 5:
+				s.na = t0.Add(-time.Duration(r.Range(1, 50)) * day)
+				s.nb = s.na.Add(-200 * day)
+			case 6:
+				s.dns = append(s.dns, pick(r, []string{"ca.example.com", "ca.example.org"})) // a version with names of its own
+			case 7:
+				s.skid = r.Bytes(r.Range(4, 20)) // key identifiers are hints: a mismatch must not change the verdict
+			case 8:
+				if r.Bool() {
+					s.pDNS = []string{pick(r, []string{".example.com", "example.org", "leaf.example.com"})}
+				} else {
+					s.xDNS = []string{pick(r, []string{".example.com", "example.org", "leaf.example.com"})}
+				}
+			}
+		}
+		t.notes = append(t.notes, fmt.Sprintf("%s exists in %d versions", x.name, len(versions)))
+	}
+	// the certificates outside the versions take part as well
+	for _, i := range t.chain {
+		if s := t.certs[i]; len(s.eku) == 0 && !s.unkEKU && r.Intn(3) == 0 {
+			s.eku = ekuOpts[r.Intn(len(ekuOpts))]
+		}
+	}
+	t.ekuVaried, t.ekuRecipe = true, true
 }
 
 // mixSlots: the recipe cycle has len(mutators)+mixSlots = 29 entries (a prime, so that
@@ -445,6 +566,27 @@ func genTopo(r *mon.Rand, i int) *topo {
 			mu := mutators[1+r.Intn(len(mutators)-1)]
 			t.notes = append(t.notes, "+"+mu.name)
 			mu.f(t, r)
+		}
+	}
+	// any recipe, one topology in five: extended key usages on every certificate (also on
+	// those the recipe added), so that every multi-chain recipe meets differing usage lists
+	if r.Intn(5) == 0 {
+		for _, s := range t.certs {
+			if r.Bool() {
+				s.eku = ekuOpts[r.Intn(len(ekuOpts))]
+			}
+		}
+		t.ekuVaried = true
+	}
+	// one in six: host names in the forms VerifyHostname distinguishes (wildcard, mixed case)
+	if r.Intn(6) == 0 {
+		for _, s := range t.certs {
+			if s.target {
+				s.dns = append(s.dns, pick(r, []string{"*.wild.example.com", "MiXed." + strings.ReplaceAll(s.name, " ", "-") + ".Example.COM", "*.example.org"}))
+				if r.Bool() {
+					s.ips = append(s.ips, ips(pick(r, []string{"10.9.8.7", "2001:db8::99"}))...)
+				}
+			}
 		}
 	}
 	// background noise: an unrelated hierarchy in the pools
@@ -506,11 +648,27 @@ func hostMatch(host, constraint string, amb *bool) bool {
 	return false
 }
 
+// unquoteLocal gives the mailbox user a local part denotes: a quoted-string stands for
+// its content, a quoted-pair for the character after the backslash (RFC 5321 4.1.2).
+func unquoteLocal(l string) string {
+	if len(l) < 2 || l[0] != '"' || l[len(l)-1] != '"' {
+		return l
+	}
+	var b []byte
+	for in, i := l[1:len(l)-1], 0; i < len(in); i++ {
+		if in[i] == '\\' && i+1 < len(in) {
+			i++
+		}
+		b = append(b, in[i])
+	}
+	return string(b)
+}
+
 func emailMatch(mailbox, constraint string, amb *bool) bool {
 	at := strings.LastIndexByte(mailbox, '@')
-	local, host := mailbox[:at], mailbox[at+1:]
+	local, host := unquoteLocal(mailbox[:at]), mailbox[at+1:]
 	if cat := strings.LastIndexByte(constraint, '@'); cat >= 0 {
-		return local == constraint[:cat] && strings.EqualFold(host, constraint[cat+1:])
+		return local == unquoteLocal(constraint[:cat]) && strings.EqualFold(host, constraint[cat+1:])
 	}
 	return hostMatch(host, constraint, amb)
 }
@@ -555,7 +713,16 @@ func constraintsAllow(ca, sub *certSpec, amb *bool) bool {
 	uriHosts := []string{}
 	for _, u := range sub.uris {
 		pu, _ := url.Parse(u)
-		uriHosts = append(uriHosts, pu.Hostname())
+		h := pu.Hostname()
+		if h == "" || net.ParseIP(h) != nil {
+			// no authority, or an IP address as host: cannot be matched, the certificate
+			// must be refused under a CA that constrains URIs (RFC 5280 4.2.1.10)
+			if len(ca.pURI)+len(ca.xURI) > 0 {
+				return false
+			}
+			continue
+		}
+		uriHosts = append(uriHosts, h)
 	}
 	return permits(sub.dns, ca.pDNS, ca.xDNS, domainMatch) &&
 		permits(sub.ips, ca.pIP, ca.xIP, ipMatch) &&
@@ -591,16 +758,66 @@ func ekuAllows(path []*certSpec, usages []x509.ExtKeyUsage) bool {
 	return false
 }
 
-// pathValid judges a candidate chain (indices, leaf first). It returns the first
-// rule that is violated, or "".
-func (t *topo) pathValid(path []int, at time.Time, usages []x509.ExtKeyUsage, strict bool, amb *bool) string {
+// ncNeed is the number of name comparisons the constraints of ca can take on the
+// certificates below it: every name against every constraint of its type.
+func ncNeed(ca *certSpec, below []*certSpec) int {
+	n := 0
+	for _, s := range below {
+		n += len(s.dns)*(len(ca.pDNS)+len(ca.xDNS)) + len(s.ips)*(len(ca.pIP)+len(ca.xIP)) +
+			len(s.emails)*(len(ca.pMail)+len(ca.xMail)) + len(s.uris)*(len(ca.pURI)+len(ca.xURI))
+	}
+	return n
+}
+
+// hostOK: VerifyHostname as documented, for the host names the generator asks for (valid
+// host names and IP addresses): an IP address (brackets allowed) must equal an IP SAN; a
+// name is compared case-insensitively, label by label, with the DNS SANs, one trailing
+// period of the name ignored, "*" as complete left-most label of a SAN standing for
+// exactly one label. The common name is never consulted.
+func hostOK(s *certSpec, h string) bool {
+	cand := h
+	if len(h) >= 3 && h[0] == '[' && h[len(h)-1] == ']' {
+		cand = h[1 : len(h)-1]
+	}
+	if ip := net.ParseIP(cand); ip != nil {
+		for _, x := range s.ips {
+			if ip.Equal(x) {
+				return true
+			}
+		}
+		return false
+	}
+	hl := strings.Split(strings.TrimSuffix(strings.ToLower(h), "."), ".")
+next:
+	for _, d := range s.dns {
+		pl := strings.Split(strings.ToLower(d), ".")
+		if len(pl) != len(hl) {
+			continue
+		}
+		for i := range pl {
+			if !(i == 0 && pl[i] == "*") && pl[i] != hl[i] {
+				continue next
+			}
+		}
+		return true
+	}
+	return false
+}
+
+// pathValid judges a candidate chain (indices, leaf first) for a query. It returns the
+// first rule that is violated, or "".
+func (t *topo) pathValid(path []int, q *query, strict bool, amb *bool) string {
+	at, usages := q.at, q.usages
 	specs := make([]*certSpec, len(path))
 	for i, p := range path {
 		specs[i] = t.certs[p]
 	}
 	last := len(path) - 1
-	if !specs[last].roots {
-		return fmt.Sprintf("%s ends the chain but is not a trust anchor", specs[last].name)
+	if !t.isRoot(path[last]) {
+		return fmt.Sprintf("%s ends the chain but is not in the pool given as Roots", specs[last].name)
+	}
+	if q.dnsName != "" && !hostOK(specs[0], q.dnsName) {
+		return fmt.Sprintf("%s is not a certificate for the host %q", specs[0].name, q.dnsName)
 	}
 	for i, s := range specs {
 		if at.Before(s.nb) || at.After(s.na) {
@@ -609,8 +826,8 @@ func (t *topo) pathValid(path []int, at time.Time, usages []x509.ExtKeyUsage, st
 		if s.crit {
 			return fmt.Sprintf("%s carries an unknown critical extension", s.name)
 		}
-		if i > 0 && i < last && !s.inter {
-			return fmt.Sprintf("%s is not among the intermediates", s.name)
+		if i > 0 && i < last && !t.isInter(path[i]) {
+			return fmt.Sprintf("%s is not in the pool given as Intermediates", s.name)
 		}
 		if i < last && !t.link(path[i], path[i+1]) {
 			return fmt.Sprintf("%s was not issued by %s (issuer name %q signer key %d; parent name %q key %d)", s.name, specs[i+1].name,
@@ -645,10 +862,30 @@ func (t *topo) pathValid(path []int, at time.Time, usages []x509.ExtKeyUsage, st
 					return fmt.Sprintf("name constraints of %s do not allow the names of %s", s.name, specs[j].name)
 				}
 			}
+			// MaxConstraintComparisions bounds work, it is not a rule of path validation: a
+			// chain is only demanded when the bound cannot be reached, and never refused
+			// by the model because of it (the verdict under a tight bound is compared with
+			// crypto/x509 on the twin)
+			if strict && q.maxCmp > 0 && ncNeed(s, specs[:i]) > q.maxCmp {
+				return fmt.Sprintf("the name constraints of %s may take more than %d comparisons", s.name, q.maxCmp)
+			}
+		}
+		// constraint attached to the pool entry (AddCertWithConstraint): documented for
+		// chains rooted in the entry; for entries of the Intermediates pool it is only
+		// taken into account when a chain is demanded
+		if i == last && t.cRoots != nil && t.cRoots[path[i]] != nil {
+			if why := t.cRoots[path[i]].refuses(t, path[:i]); why != "" {
+				return fmt.Sprintf("the constraint added with %s to the Roots pool refuses the chain: %s", s.name, why)
+			}
+		}
+		if strict && i < last && t.cInter != nil && t.cInter[path[i]] != nil {
+			if why := t.cInter[path[i]].refuses(t, path[:i]); why != "" {
+				return fmt.Sprintf("the constraint added with %s to the Intermediates pool refuses the chain: %s", s.name, why)
+			}
 		}
 	}
 	if !ekuAllows(specs, usages) {
-		return "extended key usages along the chain do not allow the requested usage"
+		return "extended key usages along the chain do not allow any requested usage"
 	}
 	return ""
 }
@@ -656,7 +893,7 @@ func (t *topo) pathValid(path []int, at time.Time, usages []x509.ExtKeyUsage, st
 // allPaths enumerates every chain of links from target to a trust anchor.
 func (t *topo) allPaths(target int) [][]int {
 	var out [][]int
-	if t.certs[target].roots {
+	if t.isRoot(target) {
 		out = append(out, []int{target})
 	}
 	var rec func(path []int)
@@ -676,10 +913,10 @@ func (t *topo) allPaths(target int) [][]int {
 				continue
 			}
 			np := append(append([]int{}, path...), j)
-			if t.certs[j].roots {
+			if t.isRoot(j) {
 				out = append(out, np)
 			}
-			if t.certs[j].inter {
+			if t.isInter(j) {
 				rec(np)
 			}
 		}
@@ -731,6 +968,7 @@ func (t *topo) template(i int) *x509.Certificate {
 		PermittedURIDomains: s.pURI, ExcludedURIDomains: s.xURI,
 		PermittedIPRanges: s.pIP, ExcludedIPRanges: s.xIP,
 		PermittedDNSDomainsCritical: s.hasNC(),
+		SubjectKeyId:                s.skid,
 	}
 	if s.ca && s.maxPath >= 0 {
 		tm.MaxPathLen, tm.MaxPathLenZero = s.maxPath, s.maxPath == 0
@@ -857,9 +1095,13 @@ func (in *instance) stdPools(t *topo) (roots, inter *x509.CertPool) {
 // ---------------------------------------------------------------------------
 
 type query struct {
-	target int
-	at     time.Time
-	usages []x509.ExtKeyUsage
+	target  int
+	at      time.Time
+	usages  []x509.ExtKeyUsage
+	dnsName string // VerifyOptions.DNSName
+	maxCmp  int    // VerifyOptions.MaxConstraintComparisions
+	noInter bool   // VerifyOptions.Intermediates nil
+	extra   bool   // asked of the SM2 instance and of crypto/x509 on the twin only (the queries at the 4 times go to all instances)
 }
 
 func usageString(u []x509.ExtKeyUsage) string {
@@ -869,10 +1111,73 @@ func usageString(u []x509.ExtKeyUsage) string {
 	return fmt.Sprint(u)
 }
 
+func (q *query) String(t *topo) string {
+	s := fmt.Sprintf("Verify(%s#%d, time=%d, usages=%s", t.certs[q.target].name, q.target, q.at.Unix(), usageString(q.usages))
+	if q.dnsName != "" {
+		s += fmt.Sprintf(", DNSName=%q", q.dnsName)
+	}
+	if q.maxCmp != 0 {
+		s += fmt.Sprintf(", MaxConstraintComparisions=%d", q.maxCmp)
+	}
+	if q.noInter {
+		s += ", Intermediates=nil"
+	}
+	return s + ")"
+}
+
+// usageSets: requested usages with one entry (or none); multiUsageSets: two and three
+// entries in several orders, so that a chain can be acceptable because of the first, a
+// middle or the last entry only, or of none.
+var usageSets = [][]x509.ExtKeyUsage{nil, {x509.ExtKeyUsageAny}, {x509.ExtKeyUsageClientAuth},
+	{x509.ExtKeyUsageClientAuth, x509.ExtKeyUsageServerAuth}, {x509.ExtKeyUsageCodeSigning}}
+
+var multiUsageSets = [][]x509.ExtKeyUsage{
+	{x509.ExtKeyUsageServerAuth, x509.ExtKeyUsageClientAuth},
+	{x509.ExtKeyUsageEmailProtection, x509.ExtKeyUsageClientAuth, x509.ExtKeyUsageServerAuth},
+	{x509.ExtKeyUsageCodeSigning, x509.ExtKeyUsageEmailProtection},
+	{x509.ExtKeyUsageClientAuth, x509.ExtKeyUsageEmailProtection},
+	{x509.ExtKeyUsageServerAuth, x509.ExtKeyUsageCodeSigning, x509.ExtKeyUsageClientAuth},
+	{x509.ExtKeyUsageTimeStamping, x509.ExtKeyUsageOCSPSigning},
+	{x509.ExtKeyUsageCodeSigning, x509.ExtKeyUsageAny},
+}
+
+// hostCandidates: host names to ask for, matching and not matching the certificate.
+func hostCandidates(s *certSpec, r *mon.Rand) []string {
+	out := []string{"other.example.net", s.name, "10.9.8.6"}
+	for _, d := range s.dns {
+		if strings.HasPrefix(d, "*.") {
+			out = append(out, "a"+d[1:], "A"+strings.ToUpper(d[1:])+".", d[2:], "a.b"+d[1:], "a"+d[1:]+".example.net")
+		} else {
+			out = append(out, d, strings.ToUpper(d), d+".", "sub."+d, d+".example.net", "x"+d)
+		}
+	}
+	for _, ip := range s.ips {
+		out = append(out, ip.String(), "["+ip.String()+"]")
+	}
+	return out
+}
+
 func (t *topo) queries(r *mon.Rand) []query {
 	var qs []query
-	usageSets := [][]x509.ExtKeyUsage{nil, {x509.ExtKeyUsageAny}, {x509.ExtKeyUsageClientAuth},
-		{x509.ExtKeyUsageClientAuth, x509.ExtKeyUsageServerAuth}, {x509.ExtKeyUsageCodeSigning}}
+	anyNC := false
+	for _, s := range t.certs {
+		anyNC = anyNC || s.hasNC()
+	}
+	pickUsage := func() []x509.ExtKeyUsage {
+		if t.ekuVaried {
+			if r.Intn(3) > 0 {
+				return multiUsageSets[r.Intn(len(multiUsageSets))]
+			}
+			return usageSets[r.Intn(len(usageSets))]
+		}
+		switch r.Intn(12) {
+		case 0:
+			return usageSets[r.Intn(len(usageSets))]
+		case 1:
+			return multiUsageSets[r.Intn(len(multiUsageSets))]
+		}
+		return usageSets[r.Intn(2)]
+	}
 	for i, s := range t.certs {
 		if !s.target {
 			continue
@@ -885,15 +1190,55 @@ func (t *topo) queries(r *mon.Rand) []query {
 		p := r.Perm(len(cands))
 		times = append(times, cands[p[0]], cands[p[1]])
 		for _, at := range times {
-			u := usageSets[r.Intn(2)]
-			if t.recipe == "ext-key-usage" || r.Intn(6) == 0 {
-				u = usageSets[r.Intn(len(usageSets))]
-			}
-			qs = append(qs, query{i, at, u})
+			qs = append(qs, query{target: i, at: at, usages: pickUsage()})
 		}
-		if t.recipe == "ext-key-usage" {
-			for _, u := range usageSets {
-				qs = append(qs, query{i, t0, u})
+		if t.ekuVaried {
+			// a sample of the single-entry and of the multi-entry sets at the nominal time (more
+			// of them when the recipe is about usages than when the usages were sprinkled on another recipe)
+			ns, nm := 0, 2
+			if t.ekuRecipe {
+				ns, nm = 3, 3
+			}
+			sp, mp := r.Perm(len(usageSets)), r.Perm(len(multiUsageSets))
+			for _, k := range sp[:ns] {
+				qs = append(qs, query{target: i, at: t0, usages: usageSets[k], extra: true})
+			}
+			for _, k := range mp[:nm] {
+				qs = append(qs, query{target: i, at: t0, usages: multiUsageSets[k], extra: true})
+			}
+		}
+		// the other fields of VerifyOptions
+		if r.Intn(4) == 0 {
+			qs = append(qs, query{target: i, at: t0, usages: usageSets[r.Intn(2)], noInter: true, extra: r.Bool()})
+		}
+		if r.Intn(4) == 0 {
+			hc := hostCandidates(s, r)
+			for k := 0; k < 2; k++ {
+				qs = append(qs, query{target: i, at: t0, usages: usageSets[1], dnsName: hc[r.Intn(len(hc))], extra: k > 0})
+			}
+		}
+		if anyNC {
+			// comparison bounds around the largest number any chain of the target can need
+			need := 0
+			for _, path := range t.allPaths(i) {
+				for k := 1; k < len(path); k++ {
+					if ca := t.certs[path[k]]; ca.hasNC() {
+						var below []*certSpec
+						for _, j := range path[:k] {
+							below = append(below, t.certs[j])
+						}
+						if n := ncNeed(ca, below); n > need {
+							need = n
+						}
+					}
+				}
+			}
+			if need > 0 {
+				for _, m := range []int{need, need - 1, 1, need + 1}[:r.Range(2, 4)] {
+					if m > 0 {
+						qs = append(qs, query{target: i, at: t0, usages: usageSets[1], maxCmp: m, extra: m != need})
+					}
+				}
 			}
 		}
 	}
@@ -1040,24 +1385,64 @@ func runTopology(c *mon.Case, i int) {
 		c.Event("certificates_created", len(in.der))
 	}
 	viaPEM := r.Bool()
+	// pool objects: built once per instance and used by every query of the topology (lazily
+	// parsed entries are then used a second time, a pool serves many Verify calls), or
+	// built afresh for every query
+	reuse := r.Intn(4) > 0
+	type poolPair struct{ roots, inter *smx509.CertPool }
+	cache := map[string]poolPair{}
+	poolsOf := func(in *instance, viaPEM bool) (*smx509.CertPool, *smx509.CertPool) {
+		key := fmt.Sprint(in.label, viaPEM)
+		if pp, ok := cache[key]; ok && reuse {
+			return pp.roots, pp.inter
+		}
+		ro, it := in.smPools(t, viaPEM)
+		cache[key] = poolPair{ro, it}
+		return ro, it
+	}
+	if reuse {
+		c.Event("topologies_with_pools_reused_by_all_queries", 1)
+	}
 	qs := t.queries(r)
 	verdicts := make([]byte, 0, len(qs))
 	anyValid, anyInvalid := false, false
-	for _, q := range qs {
+	multiChainMultiUsage := 0
+	for qi := range qs {
+		q := &qs[qi]
+		t.mInter = nil
+		if q.noInter {
+			t.mInter = make([]bool, len(t.certs))
+			c.Event("queries_without_intermediates_pool", 1)
+		}
+		if q.dnsName != "" {
+			c.Event("queries_with_DNSName", 1)
+		}
+		if q.maxCmp != 0 {
+			c.Event("queries_with_MaxConstraintComparisions", 1)
+		}
 		amb := false
 		paths := t.allPaths(q.target)
 		var validStrict [][]int
 		for _, p := range paths {
-			if t.trivial(p) && t.pathValid(p, q.at, q.usages, true, &amb) == "" {
+			if t.trivial(p) && t.pathValid(p, q, true, &amb) == "" {
 				validStrict = append(validStrict, p)
 			}
 		}
-		qd := fmt.Sprintf("Verify(%s#%d, time=%d, usages=%s)", t.certs[q.target].name, q.target, q.at.Unix(), usageString(q.usages))
+		if len(q.usages) > 1 && len(paths) > 1 {
+			multiChainMultiUsage++
+		}
+		qd := q.String(t)
 		var smSet string
 		var smOK, smDone bool
 		for k, in := range insts[:2] {
-			roots, inter := in.smPools(t, viaPEM)
-			got, ok, done := verifySM(c, t, in, in.sm[q.target], roots, inter, q, qd, paths, validStrict, &amb, true)
+			if k > 0 && q.extra {
+				break
+			}
+			roots, inter := poolsOf(in, viaPEM)
+			if q.noInter {
+				inter = nil
+			}
+			got, ok, done := verifySM(c, t, in, in.sm[q.target], roots, inter, q, qd, validStrict, &amb, true)
 			if !done {
 				continue
 			}
@@ -1085,10 +1470,14 @@ func runTopology(c *mon.Case, i int) {
 		// twin instance through crypto/x509
 		if in := insts[2]; in != nil {
 			sr, si := in.stdPools(t)
+			if q.noInter {
+				si = nil
+			}
 			var sc [][]*x509.Certificate
 			var serr error
 			if pi := mon.Try(func() {
-				sc, serr = in.std[q.target].Verify(x509.VerifyOptions{Roots: sr, Intermediates: si, CurrentTime: q.at, KeyUsages: q.usages})
+				sc, serr = in.std[q.target].Verify(x509.VerifyOptions{Roots: sr, Intermediates: si, CurrentTime: q.at, KeyUsages: q.usages,
+					DNSName: q.dnsName, MaxConstraintComparisions: q.maxCmp})
 			}); pi != nil {
 				c.Inconclusive("crypto/x509 panicked on the twin instance: %v", pi.Value)
 				continue
@@ -1106,17 +1495,23 @@ func runTopology(c *mon.Case, i int) {
 			if stdOK != smOK || stdSet != smSet {
 				c.Fail("mismatch", "%s: smx509 on the SM2 instance gives ok=%v chains {%s}; crypto/x509 on the ECDSA twin gives ok=%v chains {%s} (err %v)", qd, smOK, smSet, stdOK, stdSet, serr)
 			}
-			// the twin's DER parsed and verified by smx509 itself
-			roots, inter := in.smPools(t, !viaPEM)
-			got, ok, done := verifySM(c, t, in, in.sm[q.target], roots, inter, q, qd+" [ECDSA twin through smx509]", paths, validStrict, &amb, false)
-			if done && (ok != stdOK || got != stdSet) {
-				c.Fail("mismatch", "%s: same ECDSA certificates: smx509 ok=%v chains {%s}, crypto/x509 ok=%v chains {%s}", qd, ok, got, stdOK, stdSet)
+			if !q.extra {
+				// the twin's DER parsed and verified by smx509 itself
+				roots, inter := poolsOf(in, !viaPEM)
+				if q.noInter {
+					inter = nil
+				}
+				got, ok, done := verifySM(c, t, in, in.sm[q.target], roots, inter, q, qd+" [ECDSA twin through smx509]", validStrict, &amb, false)
+				if done && (ok != stdOK || got != stdSet) {
+					c.Fail("mismatch", "%s: same ECDSA certificates: smx509 ok=%v chains {%s}, crypto/x509 ok=%v chains {%s}", qd, ok, got, stdOK, stdSet)
+				}
 			}
 		}
 		if amb {
 			c.Event("queries_with_ambiguous_host_constraint(not judged by the model)", 1)
 		}
 	}
+	t.mInter = nil
 	outcome := "none-valid"
 	if anyValid && anyInvalid {
 		outcome = "both"
@@ -1125,19 +1520,21 @@ func runTopology(c *mon.Case, i int) {
 	}
 	c.Class("%s/depth%d/certs%d/%s", t.recipe, t.depth, len(t.certs), outcome)
 	c.Event("queries", len(qs))
+	c.Event("queries_with_several_usages_and_several_candidate_chains", multiChainMultiUsage)
 	c.Digest(fmt.Sprintf("topo/%d", i), verdicts)
 }
 
 // verifySM runs smx509 Verify on one instance and judges the result against the
 // ground truth. It returns the canonical chain set, the verdict and whether the
 // call completed.
-func verifySM(c *mon.Case, t *topo, in *instance, leaf *smx509.Certificate, roots, inter *smx509.CertPool, q query, qd string,
-	paths, validStrict [][]int, amb *bool, count bool) (string, bool, bool) {
+func verifySM(c *mon.Case, t *topo, in *instance, leaf *smx509.Certificate, roots, inter *smx509.CertPool, q *query, qd string,
+	validStrict [][]int, amb *bool, count bool) (string, bool, bool) {
 	var got [][]*smx509.Certificate
 	var err error
-	if !c.Call(qd+" on instance "+in.label, func() {
-		got, err = leaf.Verify(smx509.VerifyOptions{Roots: roots, Intermediates: inter, CurrentTime: q.at, KeyUsages: q.usages})
-	}) {
+	usages := append([]x509.ExtKeyUsage(nil), q.usages...) // the caller's list, which Verify must leave alone
+	opts := smx509.VerifyOptions{Roots: roots, Intermediates: inter, CurrentTime: q.at, KeyUsages: usages,
+		DNSName: q.dnsName, MaxConstraintComparisions: q.maxCmp}
+	if !c.Call(qd+" on instance "+in.label, func() { got, err = leaf.Verify(opts) }) {
 		return "", false, false
 	}
 	if err != nil && strings.Contains(err.Error(), "signature check attempts limit") {
@@ -1146,6 +1543,9 @@ func verifySM(c *mon.Case, t *topo, in *instance, leaf *smx509.Certificate, root
 	}
 	if count {
 		c.Event("verify_calls", 1)
+	}
+	if fmt.Sprint(usages) != fmt.Sprint(q.usages) {
+		c.Fail("mismatch", "%s on %s: Verify changed the caller's VerifyOptions.KeyUsages from %v to %v", qd, in.label, q.usages, usages)
 	}
 	var idx [][]int
 	if err == nil {
@@ -1156,7 +1556,10 @@ func verifySM(c *mon.Case, t *topo, in *instance, leaf *smx509.Certificate, root
 			var p []int
 			known := true
 			for _, ce := range ch {
-				j, ok := in.byRaw[string(ce.Raw)]
+				j, ok := -1, false
+				if ce != nil {
+					j, ok = in.byRaw[string(ce.Raw)]
+				}
 				known = known && ok
 				p = append(p, j)
 			}
@@ -1167,14 +1570,23 @@ func verifySM(c *mon.Case, t *topo, in *instance, leaf *smx509.Certificate, root
 			idx = append(idx, p)
 			// soundness: every link and every rule, against the ground truth
 			lamb := false
-			why := t.pathValid(p, q.at, q.usages, false, &lamb)
+			why := t.pathValid(p, q, false, &lamb)
 			if lamb {
 				*amb = true
 				continue
 			}
 			c.Event("chains_checked_link_by_link", 1)
+			if len(got) > 1 {
+				c.Event("chains_checked_link_by_link/of_a_multi_chain_answer", 1)
+			}
 			if why != "" {
 				c.Fail("accept", "%s on instance %s returned the chain %s which the ground truth refuses: %s", qd, in.label, pathString(t, p), why)
+			}
+		}
+		// the returned slices belong to the caller: overwriting them must not disturb later calls
+		for _, ch := range got {
+			for j := range ch {
+				ch[j] = nil
 			}
 		}
 		c.Event("verdict/chain_returned", 1)
